@@ -78,6 +78,7 @@ impl Marker {
                 MarkEvent::NodeStart { kind, .. } => *kind = LuaSyntaxKind::None,
                 _ => unreachable!(),
             }
+            p.decr_mark_level();
             return CompleteMarker {
                 start: 0,
                 kind: LuaSyntaxKind::None,
@@ -97,6 +98,7 @@ impl Marker {
             }
             _ => unreachable!(),
         }
+        p.decr_mark_level();
 
         CompleteMarker {
             start: self.position,
